@@ -125,17 +125,18 @@ class C01(PtgCheck):
             m = re.match(r"cfg=(\S+) end=(\S+) (.*)$", ch)
             cfg, end, body = (m.group(1), m.group(2), m.group(3)) if m else ("all", "rc=0", ch[5:])
             got = sorted(parse_inst_list(body))
-            if end != "rc=0":
-                missing = [x for x in space if x not in got]
-                return "[%s] run did not complete (%s); %d of %d instances ran%s" % (
-                    cfg, end, len(got), len(space), (", e.g. %s%s never ran" % missing[0]) if missing else "")
+            tail = "" if end == "rc=0" else " (and the run ended with %s)" % end
+            # what did run is judged first: a crashed or hung run still shows its duplicates and strangers
             dup = [x for i, x in enumerate(got) if i > 0 and got[i - 1] == x]
             if dup:
-                return "[%s] instance %s%s ran %d times" % (cfg, dup[0][0], dup[0][1], got.count(dup[0]))
+                return "[%s] instance %s%s ran %d times%s" % (cfg, dup[0][0], dup[0][1], got.count(dup[0]), tail)
             extra = [x for x in got if x not in space]
             if extra:
-                return "[%s] %s%s ran but is not in the execution space" % (cfg, extra[0][0], extra[0][1])
+                return "[%s] %s%s ran but is not in the execution space%s" % (cfg, extra[0][0], extra[0][1], tail)
             missing = [x for x in space if x not in got]
+            if end != "rc=0":
+                return "[%s] run did not complete (%s); %d of %d instances ran%s" % (
+                    cfg, end, len(got), len(space), (", e.g. %s%s never ran" % missing[0]) if missing else "")
             if missing:
                 return "[%s] instance %s%s never ran (%d of %d ran)" % (cfg, missing[0][0], missing[0][1], len(got), len(space))
         return None
